@@ -674,7 +674,21 @@ func (g *genCtx) cross() *unit {
 	pools()
 	for {
 		u := &unit{ID: g.newID(), Class: clsCross}
-		switch g.r.Intn(7) {
+		switch g.r.Intn(8) {
+		case 6, 7: // the empty string is a legal key (slot 0); together with a key elsewhere the unit spans two slots
+			u.Txn = g.r.Intn(3) == 0
+			u.Variant = "empty-string-key"
+			other := fmt.Sprintf("{e%d}%s", g.r.Intn(100000), u.ID)
+			if ref.HashSlot([]byte(other)) == 0 {
+				continue
+			}
+			k1, k2 := "", other
+			if g.r.Intn(2) == 0 {
+				k1, k2 = other, ""
+			}
+			if !g.pair(u, k1, k2) {
+				continue
+			}
 		case 0, 1: // near misses: a wrong slot function would call them same-slot
 			u.Txn = g.r.Intn(2) == 0
 			n := g.r.Intn(100000)
